@@ -450,6 +450,598 @@ theorem merge_matched_inner {S : Schema} (K : KeyOrderOn S P) {o : MergeOpts} {n
       · exact Or.inr (matchP_src_of_left K hsd htd hmd hmm hm)
       · exact Or.inl (by simp [h])
 
+/-! ### good sibling lists: the keys come first and belong to earlier schema nodes; different members are different instances -/
+
+theorem good_keys_lt {S : Schema} (K : KeyOrderOn S P) {l : List DNode} (hg : goodT S P l = true) :
+    ∀ k ∈ keysOf S l, ∀ c ∈ noKeys S l, k.sid < c.sid := by
+  intro k hk c hc
+  have hs := (goodL_iff K).mp (goodT_goodL hg)
+  have hsorted : (ordOf S K).Sorted (keysOf S l ++ noKeys S l) := by rw [keysOf_append_noKeys]; exact hs.1
+  have hlt : nlt S k c = true := (List.pairwise_append.mp hsorted).2.2 k hk c hc
+  have hkk : S.isKey k.sid = true := mem_keysOf_isKey hk
+  have hck : S.isKey c.sid = false := mem_noKeys_notKey (goodT_lead hg) hc
+  simp only [nlt, Bool.or_eq_true, decide_eq_true_eq, Bool.and_eq_true, beq_iff_eq] at hlt
+  rcases hlt with h | ⟨⟨h, _⟩, _⟩
+  · exact h
+  · rw [h, hck] at hkk; cases hkk
+
+theorem good_pairwise {S : Schema} (K : KeyOrderOn S P) {l : List DNode} (hg : goodL S P l = true) :
+    l.Pairwise (fun a b => matchP S a b = false ∧ matchP S b a = false) := by
+  have hs := (goodL_iff K).mp hg
+  have hd := goodL_allDom K hg
+  have h1 : (ordOf S K).Sorted l := hs.1
+  unfold KL.Ord.Sorted at h1
+  refine (List.Pairwise.and_mem.mp h1).imp ?_
+  rintro a b ⟨ha, hb, hlt⟩
+  have h := (ordOf S K).lt_not_same (hd a ha) (hd b hb) hlt
+  exact ⟨h, matchP_false_symm K (hd a ha) (hd b hb) h⟩
+
+/-! ### exactness when the inherited operation changes and operations are made explicit -/
+
+theorem exactE_own {S : Schema} {c : DNode} {op : Op} (ho : ownOp c = some op) (a b : Option Op) (e : Option DNode) :
+    exactE S P a e c = exactE S P b e c := by
+  have he : ∀ i, effOp c i = some op := fun i => effOp_own' ho i
+  cases c with
+  | term s f m v => simp only [exactE, he]
+  | inner s f m ks =>
+    cases op with
+    | replace => cases e <;> simp [exactE, he]
+    | create => cases e <;> simp [exactE, he]
+    | delete => cases e <;> simp [exactE, he]
+    | none =>
+      have hc' : childInhOf (.inner s f m ks) a = childInhOf (.inner s f m ks) b := by
+        simp [childInhOf, ho]
+      simp only [exactE, he, hc']
+
+/-- making the inherited operation `none` of an inner node explicit keeps it exact, whatever is inherited afterwards -/
+theorem exactE_changeOp_none {S : Schema} (K : KeyOrderOn S P) {s : Nat} {f : Flags} {m : List Meta} {ks : List DNode}
+    {inh : Option Op} (hm : MetaOK (.inner s f m ks)) (hop : effOp (.inner s f m ks) inh = some .none) (b : Option Op)
+    (e : Option DNode) :
+    exactE S P b e (changeOp (.inner s f m ks) .none) = exactE S P inh e (.inner s f m ks) := by
+  have h1 : changeOp (.inner s f m ks) .none = .inner s f (eraseMeta "operation" m ++ [("operation", bs Op.none.str)]) ks := rfl
+  have hm' : MetaOK (changeOp (.inner s f m ks) .none) := metaOK_changeOp hm .none
+  have ho' : ownOp (changeOp (.inner s f m ks) .none) = some .none := ownOp_changeOp hm .none
+  have he' : effOp (changeOp (.inner s f m ks) .none) b = some .none := effOp_own' ho' b
+  have hc' : childInhOf (changeOp (.inner s f m ks) .none) b = some .none := childInh_of_own _ .none b ho' (by decide)
+  have hc : childInhOf (.inner s f m ks) inh = some .none := childInh_none hop
+  rw [h1] at hm' he' hc' ⊢
+  have hdom : domB S P (.inner s f (eraseMeta "operation" m ++ [("operation", bs Op.none.str)]) ks) =
+      domB S P (.inner s f m ks) := by
+    simp only [domB, Diff.domB, DNode.sid, DNode.isTerm]
+    rw [K.pinv.pcongr (x := .inner s f (eraseMeta "operation" m ++ [("operation", bs Op.none.str)]) ks)
+      (y := .inner s f m ks) rfl rfl rfl]
+  simp only [exactE, he', hop, hc', hc, hdom, metaOKB_iff.mpr hm', metaOKB_iff.mpr hm]
+  cases e <;> rfl
+
+/-- an exact sibling list stays exact when its nodes are replaced by nodes that address the same instances and are exact for them
+(under another inherited operation) -/
+theorem exactK_map {S : Schema} {inh inh2 : Option Op} {L : List DNode} (g : DNode → DNode)
+    (hg1 : ∀ c x, matchP S (g c) x = matchP S c x)
+    (hg2 : ∀ q c, S.isDupInst q.sid = false → matchP S q (g c) = matchP S q c) (hg3 : ∀ c, (g c).sid = c.sid) :
+    ∀ (ld : Bool) (D : List DNode), exactK S P inh L ld D = true →
+      (∀ c ∈ dk S ld D, exactE S P inh2 (look S L c) (g c) = true) → exactK S P inh2 L ld (D.map g) = true
+  | ld, [], _, _ => by simp [exactK]
+  | ld, c :: cs, h, hE => by
+    rw [List.map_cons]
+    unfold exactK at h ⊢
+    rw [hg3]
+    split at h
+    · rename_i hlk
+      simp only [hlk, ↓reduceIte]
+      simp only [Bool.and_eq_true] at hlk
+      obtain ⟨rfl, hk⟩ := hlk
+      rw [dk_cons_key hk] at hE
+      exact exactK_map g hg1 hg2 hg3 true cs h hE
+    · rename_i hlk
+      simp only [hlk, Bool.false_eq_true, ↓reduceIte]
+      simp only [Bool.and_eq_true] at h ⊢
+      obtain ⟨⟨⟨hE0, hkb⟩, hdist⟩, hrest⟩ := h
+      have hk : S.isKey c.sid = false := (exactE_base hE0).2.2
+      rw [dk_cons_nokey hk] at hE
+      have hfind : L.find? (matchP S (g c)) = L.find? (matchP S c) := by
+        have : matchP S (g c) = matchP S c := funext (hg1 c)
+        rw [this]
+      refine ⟨⟨⟨?_, hkb⟩, ?_⟩, ?_⟩
+      · rw [hfind]; exact hE c (List.mem_cons_self ..)
+      · rw [List.all_map]
+        rw [List.all_eq_true] at hdist ⊢
+        intro c' hc'
+        simp only [Function.comp, hg1, hg2 c c' (exactE_base hE0).1.ndi]
+        exact hdist c' hc'
+      · exact exactK_map g hg1 hg2 hg3 false cs hrest (fun c' hc' => hE c' (List.mem_cons_of_mem _ (by simpa [dk] using hc')))
+
+/-- applying the mapped nodes is applying the nodes -/
+theorem applyF_map_congr {S : Schema} {n : Nat} {hp : Bool} {i1 i2 : Option Op} (g : DNode → DNode) :
+    ∀ (D : List DNode) (X : List DNode), (∀ c ∈ D, ∀ Z, applyNode S fx n Z hp i2 (g c) = applyNode S fx n Z hp i1 c) →
+      applyF S fx n hp i2 (D.map g) X = applyF S fx n hp i1 D X
+  | [], _, _ => rfl
+  | c :: cs, X, h => by
+    rw [List.map_cons, applyF_cons, applyF_cons, h c (List.mem_cons_self ..) X]
+    cases applyNode S fx n X hp i1 c with
+    | error e => rfl
+    | ok X' => exact applyF_map_congr g cs X' (fun c' hc' => h c' (List.mem_cons_of_mem _ hc'))
+
+/-- `exactK` from its members -/
+theorem exactK_intro {S : Schema} {inh : Option Op} {L : List DNode} : ∀ (ld : Bool) (D : List DNode),
+    (∀ c ∈ dk S ld D, exactE S P inh (look S L c) c = true ∧ KeysBelow S c L) →
+    (dk S ld D).Pairwise (fun a b => matchP S a b = false) → exactK S P inh L ld D = true
+  | ld, [], _, _ => by simp [exactK]
+  | ld, c :: cs, h, hp => by
+    unfold exactK
+    split
+    · rename_i hlk
+      simp only [Bool.and_eq_true] at hlk
+      obtain ⟨rfl, hk⟩ := hlk
+      rw [dk_cons_key hk] at h hp
+      exact exactK_intro true cs h hp
+    · rename_i hlk
+      have hdk : dk S ld (c :: cs) = c :: cs := by
+        cases ld
+        · simp [dk]
+        · exact dk_cons_nokey (by simpa using hlk) true
+      rw [hdk] at h hp
+      have hdk0 : dk S false cs = cs := by simp [dk]
+      obtain ⟨hE, hkb⟩ := h c (List.mem_cons_self ..)
+      simp only [Bool.and_eq_true]
+      refine ⟨⟨⟨hE, ?_⟩, ?_⟩, ?_⟩
+      · rw [List.all_eq_true]
+        intro k hk
+        simpa using hkb k hk
+      · rw [List.all_eq_true]
+        intro c' hc'
+        simpa using (List.pairwise_cons.mp hp).1 c' hc'
+      · exact exactK_intro false cs (by rw [hdk0]; exact fun c' hc' => h c' (List.mem_cons_of_mem _ hc'))
+          (by rw [hdk0]; exact (List.pairwise_cons.mp hp).2)
+
+/-- the children of a DELETED subtree (plain copies, operation inherited) are an exact diff for every good list with their
+observation -/
+theorem exactK_plain_delete {S : Schema} (K : KeyOrderOn S P) {ks Yk : List DNode} (hg : goodT S P ks = true)
+    (hpl : plainL ks = true) (hn : normL13 Yk = normL13 ks) :
+    exactK S P (some .delete) Yk true ks = true := by
+  have hdk : dk S true ks = noKeys S ks := by simp [dk]
+  apply exactK_intro true ks
+  · rw [hdk]
+    intro c hc
+    have hcm : c ∈ ks := (noKeys_sublist S ks).subset hc
+    have hgc : goodN S P c = true := goodL_mem (goodT_goodL hg) hcm
+    have hpc : plainN c = true := plainL_mem hpl hcm
+    have hck : S.isKey c.sid = false := mem_noKeys_notKey (goodT_lead hg) hc
+    have hkb : KeysBelow S c ks := fun k hk => good_keys_lt K hg k hk c hc
+    refine ⟨?_, keysBelow_congr hn hkb⟩
+    have hl : (look S Yk c).map normN = some (normN c) := by
+      rw [look_norm_congr hn c, look_self K (goodT_goodL hg) hcm]; rfl
+    obtain ⟨yc, hyc, hyn⟩ := look_some_of_norm hl
+    have hop : effOp c (some .delete) = some .delete := by simp [effOp, plainN_ownOp hpc]
+    have hdq : dataEq true yc c = true := (dataEq_iff_norm yc c).mpr hyn
+    have hdom : domB S P c = true := domB_iff.mpr (goodN_dom hgc)
+    rw [hyc]
+    cases c with
+    | term s f m v =>
+      simp only [exactE, hop, hdom, hdq, Bool.and_eq_true, Bool.true_and, Bool.and_true]
+      exact ⟨by simp [metaOKB, plainN_metas hpc], by simpa [DNode.sid] using hck⟩
+    | inner s f m ks' =>
+      have hgk : goodT S P ks' = true := goodN_kidsT hgc
+      have hpk : plainL ks' = true := by simpa [DNode.kids] using plainN_kids hpc
+      simp only [exactE, hop, hdom, hdq, hgk, hpk, Bool.and_eq_true, Bool.true_and, Bool.and_true]
+      exact ⟨by simp [metaOKB, plainN_metas hpc], by simpa [DNode.sid] using hck⟩
+  · rw [hdk]
+    exact ((good_pairwise K (goodT_goodL hg)).sublist (noKeys_sublist S ks)).imp (fun h => h.1)
+
+theorem sameInst_of_matchP_inner {S : Schema} {src t : DNode} (hsd : Dom S P src) (hnt : src.isTerm = false)
+    (hm : matchP S src t = true) : sameInst S t src = true := by
+  have hs : t.sid = src.sid := matchP_sid hm
+  have hSt : S.isTerm src.sid = false := by rw [← hsd.typed]; exact hnt
+  simp only [matchP, Bool.and_eq_true, Bool.or_eq_true, Bool.not_eq_eq_eq_not, Bool.not_true, instMatch, hsd.ndi,
+    Bool.false_eq_true, ↓reduceIte] at hm
+  rcases hm.2 with h | h
+  · simp only [Schema.isTerm, Bool.or_eq_false_iff] at hSt
+    simp only [isLL, Bool.or_eq_false_iff] at h
+    have h1 := hSt.1; have h2 := hSt.2; have h3 := h.1
+    simp only [Schema.isKind, beq_eq_false_iff_ne, ne_eq] at h1 h2 h3
+    unfold sameInst
+    rw [hs]
+    cases hk : S.kind? src.sid with
+    | none => simp
+    | some k => cases k <;> simp_all
+  · exact h
+
+/-- the key copies in front stay as they are -/
+def offKeys (S : Schema) (g : DNode → DNode) (c : DNode) : DNode := if S.isKey c.sid then c else g c
+
+theorem map_offKeys {S : Schema} (g : DNode → DNode) {kt : List DNode} (hl : keysLead S kt = true) :
+    kt.map (offKeys S g) = keysOf S kt ++ (noKeys S kt).map g := by
+  conv => lhs; rw [← keysOf_append_noKeys S kt]
+  rw [List.map_append]
+  congr 1
+  · conv => rhs; rw [← List.map_id (keysOf S kt)]
+    apply List.map_congr_left
+    intro k hk
+    simp [offKeys, mem_keysOf_isKey hk]
+  · apply List.map_congr_left
+    intro c hc
+    simp [offKeys, mem_noKeys_notKey hl hc]
+
+theorem heightL_map_le {g : DNode → DNode} (hg : ∀ c, (g c).height = c.height) : ∀ l : List DNode, heightL (l.map g) = heightL l
+  | [] => rfl
+  | c :: cs => by simp [heightL, hg c, heightL_map_le hg cs]
+
+/-! ### an inner node changed inside by the first diff and deleted by the second -/
+
+/-- `lyd_diff_merge_delete` makes the operation `none` a child inherits explicit -/
+def explNone (c : DNode) : DNode := if ownOp c = none then changeOp c .none else c
+
+theorem childInh_delete {d : DNode} {inh : Option Op} (h : effOp d inh = some .delete) : childInhOf d inh = some .delete := by
+  unfold childInhOf
+  cases ho : ownOp d with
+  | none => simpa [effOp, ho] using h
+  | some o =>
+    have : o = .delete := by simpa [effOp, ho] using h
+    subst this
+    rfl
+
+theorem safeP_congr {S : Schema} {cur1 cur2 sin : Option Op} {t t' : DNode} (h1 : t'.isTerm = t.isTerm)
+    (h2 : effOp t' cur2 = effOp t cur1) (h3 : t.isTerm = false → childInhOf t' cur2 = childInhOf t cur1) (h4 : t'.kids = t.kids)
+    (c : DNode) : safeP S cur2 sin t' c = safeP S cur1 sin t c := by
+  cases c with
+  | term s f m v => simp only [safeP, h1, h2]
+  | inner s f m ks =>
+    cases ht : t.isTerm
+    · simp only [safeP, h1, h2, h3 ht, h4]
+    · simp only [safeP, h1, ht, Bool.not_true, Bool.false_and]
+
+theorem ownOp_explNone {c : DNode} (hm : MetaOK c) : ∃ op, ownOp (explNone c) = some op := by
+  unfold explNone
+  cases ho : ownOp c with
+  | none => exact ⟨.none, by simp only [↓reduceIte]; exact ownOp_changeOp hm .none⟩
+  | some op => exact ⟨op, by simp only [reduceCtorEq, ↓reduceIte]; exact ho⟩
+
+theorem matchP_explNone (S : Schema) (c x : DNode) : matchP S (explNone c) x = matchP S c x := by
+  unfold explNone; split
+  · exact matchP_changeOp S c x .none
+  · rfl
+
+theorem matchP_explNone_right {S : Schema} {q : DNode} (hq : S.isDupInst q.sid = false) (c : DNode) :
+    matchP S q (explNone c) = matchP S q c := by
+  unfold explNone; split
+  · exact matchP_of_same_data_right (x := c) hq (by simp) (by simp) (by simp)
+  · rfl
+
+@[simp] theorem sid_explNone (c : DNode) : (explNone c).sid = c.sid := by unfold explNone; split <;> simp
+@[simp] theorem kids_explNone (c : DNode) : (explNone c).kids = c.kids := by unfold explNone; split <;> simp
+@[simp] theorem isTerm_explNone (c : DNode) : (explNone c).isTerm = c.isTerm := by unfold explNone; split <;> simp
+theorem height_explNone (c : DNode) : (explNone c).height = c.height := by
+  unfold explNone; split
+  · exact height_changeOp c .none
+  · rfl
+
+/-- what `lyd_diff_merge_delete` makes of an inner target node with operation `none` -/
+theorem mergeDelete_none_inner (S : Schema) (st : Nat) (ft : Flags) (mt : List Meta) (kt : List DNode) (src : DNode)
+    (hsame : sameInst S (.inner st ft mt kt) src = true) (hndi : S.isDupInst st = false) :
+    mergeDelete S (.inner st ft mt kt) .none src =
+      .ok (.inner st ft (eraseMeta "operation" mt ++ [("operation", bs Op.delete.str)])
+        (keysOf S kt ++ (noKeys S kt).map fun c =>
+          if (getMeta c "operation").isSome then c else if (findForApply S src.kids c).isSome then changeOp c .none else c)) := by
+  have hco : changeOp (.inner st ft mt kt) .delete = .inner st ft (eraseMeta "operation" mt ++ [("operation", bs Op.delete.str)]) kt := rfl
+  unfold mergeDelete
+  simp only [hsame, Bool.not_true, Bool.false_eq_true, ↓reduceIte, Except.map, hco, pj_sid_inner, hndi, pj_kids_inner,
+    pj_setKids_inner]
+
+/-- an inner node with operation `none` (changed inside by the first diff) meets a `delete` of the whole instance: the target node
+becomes `delete`, the children of the deleted subtree are merged into its children (induction hypothesis `IH`) -/
+theorem merge_matched_inner_nd {S : Schema} (K : KeyOrderOn S P) {o : MergeOpts} {n : Nat} {hp : Bool} {cur sin : Option Op}
+    {s : Nat} {f : Flags} {ms : List Meta} {ks : List DNode} {t : DNode}
+    {kp pre rest L Y : List DNode} {E : DNode → Option DNode} (IH : ListMergeSpec S P fx o ks)
+    (hh : (DNode.inner s f ms ks).height ≤ n) (hgL : goodT S P L = true) (hgY : goodT S P Y = true)
+    (hkp : ∀ k ∈ kp, S.isKey k.sid = true ∧ k.sid < s)
+    (hT : TInv S P fx cur (pre ++ t :: rest) L E) (hR : Rel S P (pre ++ t :: rest) L E Y)
+    (hpre : ∀ a ∈ pre, matchP S (.inner s f ms ks) a = false) (hm : matchP S (.inner s f ms ks) t = true)
+    (hO : Orig S P cur L t) (hsafe : safeP S cur sin t (.inner s f ms ks) = true)
+    (hcop : effOp t cur = some .none) (hsop : effOp (.inner s f ms ks) sin = some .delete)
+    (hsex : exactE S P sin (look S Y (.inner s f ms ks)) (.inner s f ms ks) = true)
+    (hkb : KeysBelow S (.inner s f ms ks) Y) :
+    MergeConcl S P fx o n hp cur sin (.inner s f ms ks) kp (pre ++ t :: rest) L Y := by
+  obtain ⟨htex, hlt, _⟩ := hO
+  obtain ⟨hsd, _, hsk⟩ := exactE_base hsex
+  obtain ⟨htd, htm, htk⟩ := exactE_base htex
+  simp only [safeP, Bool.and_eq_true, Bool.not_eq_eq_eq_not, Bool.not_true] at hsafe
+  obtain ⟨⟨⟨htnt, _⟩, hkord⟩, hsafeK⟩ := hsafe
+  cases t with
+  | term => simp [DNode.isTerm] at htnt
+  | inner st ft mt kt =>
+  have hss : st = s := matchP_sid hm
+  subst hss
+  obtain ⟨x, hx, hnet, hexkt⟩ := exactE_none_inner htex hcop
+  obtain ⟨y, hy, hdq, hpl, hgks⟩ := exactE_delete hsex hsop
+  obtain ⟨hgx, hxs⟩ := good_look hgL x hx
+  obtain ⟨hgy, hys⟩ := good_look hgY y hy
+  have hgxk := goodN_kidsT hgx
+  have hgyk := goodN_kidsT hgy
+  have hmem : DNode.inner st ft mt kt ∈ pre ++ DNode.inner st ft mt kt :: rest := by simp
+  have hperm : (pre ++ DNode.inner st ft mt kt :: rest).Perm (DNode.inner st ft mt kt :: (pre ++ rest)) := List.perm_middle
+  have hT1 := hT.perm hperm
+  have hR1 := hR.perm hperm
+  have hxt : x.isTerm = false := by rw [(goodN_dom hgx).typed, hxs, ← htd.typed]; rfl
+  have hyt : y.isTerm = false := by rw [(goodN_dom hgy).typed, hys, ← hsd.typed]; rfl
+  have hcur' : childInhOf (.inner st ft mt kt) cur = some .none := childInh_none hcop
+  have hsin' : childInhOf (.inner st f ms ks) sin = some .delete := childInh_delete hsop
+  rw [hcur'] at hexkt hsafeK
+  rw [hsin'] at hsafeK
+  have hdkt : dk S true kt = noKeys S kt := by simp [dk]
+  have hlitk : litL kt = true := by simp only [litN, Bool.and_eq_true] at hlt; exact hlt.2
+  -- the children of the target node: what `lyd_diff_merge_delete` makes of them
+  have hkfacts : ∀ c ∈ noKeys S kt, exactE S P (some .none) (look S x.kids c) c = true ∧ litN c = true ∧
+      (ownOp c = none → c.isTerm = false ∧ c.metas = []) := by
+    intro c hc
+    have h1 := (exactK_mem true kt hexkt c (by rw [hdkt]; exact hc)).1
+    have h2 := litL_mem hlitk ((noKeys_sublist S kt).subset hc)
+    refine ⟨h1, h2, ?_⟩
+    intro ho
+    cases hct : c.isTerm
+    · refine ⟨rfl, ?_⟩
+      cases c with
+      | term => simp [DNode.isTerm] at hct
+      | inner sc fc mc kc =>
+        simp only [litN, Bool.and_eq_true, litInner, Bool.or_eq_true, beq_iff_eq] at h2
+        rcases h2.1 with ((h | h) | h) | h
+        · exact h
+        all_goals (subst h; simp [ownOp, getMeta, DNode.metas, ofBytes_none, ofBytes_create, ofBytes_delete] at ho)
+    · obtain ⟨op, ho'⟩ := own_of_exact_lit (Or.inr rfl) hct h1 h2
+      rw [ho] at ho'; cases ho'
+  have hgexact : ∀ c ∈ noKeys S kt, exactE S P (some .delete) (look S x.kids c) (explNone c) = true := by
+    intro c hc
+    obtain ⟨h1, _, h3⟩ := hkfacts c hc
+    unfold explNone
+    cases ho : ownOp c with
+    | some op => simp only [reduceCtorEq, ↓reduceIte]; rw [exactE_own ho (some .delete) (some .none)]; exact h1
+    | none =>
+      simp only [↓reduceIte]
+      obtain ⟨hct, _⟩ := h3 ho
+      cases c with
+      | term => simp [DNode.isTerm] at hct
+      | inner sc fc mc kc =>
+        have hop : effOp (.inner sc fc mc kc) (some .none) = some .none := by simp [effOp, ho]
+        rw [exactE_changeOp_none K (exactE_base h1).2.1 hop]
+        exact h1
+  have hlvl0 := exactK_level K true kt hexkt
+  rw [hdkt] at hlvl0
+  have hlead : keysLead S kt = true := by
+    simp only [keysLead, List.all_eq_true, Bool.not_eq_eq_eq_not, Bool.not_true]
+    exact hlvl0.nokey
+  have hmapK : exactK S P (some .delete) x.kids true (kt.map (offKeys S explNone)) = true := by
+    apply exactK_map (offKeys S explNone) ?_ ?_ ?_ true kt hexkt
+    · intro c hc
+      rw [hdkt] at hc
+      have : offKeys S explNone c = explNone c := by simp [offKeys, hlvl0.nokey c hc]
+      rw [this]
+      exact hgexact c hc
+    · intro c z; unfold offKeys; split
+      · rfl
+      · exact matchP_explNone S c z
+    · intro q c hq; unfold offKeys; split
+      · rfl
+      · exact matchP_explNone_right hq c
+    · intro c; unfold offKeys; split <;> simp
+  rw [map_offKeys explNone hlead] at hmapK
+  obtain ⟨hko, hno⟩ := split_keys (S := S) (kp := keysOf S kt) (M := (noKeys S kt).map explNone) (keysOf_all_key S kt)
+    (by
+      intro m hm
+      obtain ⟨c, hc, rfl⟩ := List.mem_map.mp hm
+      rw [sid_explNone]; exact hlvl0.nokey c hc)
+  obtain ⟨Ek, V, hTk, hAk, hRelk⟩ := kids_inv (fx := fx) K hgxk hmapK
+  rw [hno] at hTk hAk hRelk
+  -- applying the mapped children is applying the children
+  have hcongr : ∀ (m : Nat) (hp' : Bool), ∀ c ∈ noKeys S kt, ∀ Z,
+      applyNode S fx m Z hp' (some .delete) (explNone c) = applyNode S fx m Z hp' (some .none) c := by
+    intro m hp' c hc Z
+    obtain ⟨h1, _, _⟩ := hkfacts c hc
+    obtain ⟨hcd, hcm, _⟩ := exactE_base h1
+    unfold explNone
+    cases ho : ownOp c with
+    | some op => simp only [reduceCtorEq, ↓reduceIte]; exact applyNode_own ho hcd.nuo m Z hp' _ _
+    | none =>
+      simp only [↓reduceIte]
+      exact applyNode_changeOp hcm (by simp [effOp, ho]) hcd.nuo m Z hp'
+  have hAk' : ActsL S P fx (some .none) (noKeys S kt) (normL13 x.kids) V := by
+    intro m hp' X hhm hgX hX
+    have := hAk m hp' X (by rw [heightL_map_le height_explNone]; exact hhm) hgX hX
+    rwa [applyF_map_congr explNone (noKeys S kt) X (hcongr m hp')] at this
+  have hactt : Acts S P fx cur (.inner st ft mt kt) (some (normN x)) (some (.inner st {} [] V)) :=
+    acts_none_inner (y := normN x) K htd htk hcop hnet (by rw [hcur']; simpa using hAk')
+  have hactt' : Acts S P fx cur (.inner st ft mt kt) ((look S L (.inner st ft mt kt)).map normN) (some (.inner st {} [] V)) := by
+    rw [hx]; exact hactt
+  have hEt : E (.inner st ft mt kt) = some (.inner st {} [] V) :=
+    Acts.det (hT.acts _ hmem) hactt' hgL (hT.kb _ hmem) rfl
+  have hlY : look S Y (.inner st f ms ks) = look S Y (.inner st ft mt kt) := look_congr K (goodT_goodL hgY) hsd htd hm
+  have hyV : normL13 y.kids = V := by
+    have h1 := hR.on _ hmem
+    rw [← hlY, hy, hEt] at h1
+    simp only [Option.map_some, Option.some.injEq, normN_inner_form hyt, DNode.inner.injEq] at h1
+    exact h1.2.2.2
+  obtain ⟨hRk, hkYk, _⟩ := hRelk y.kids hgyk hyV
+  have hn : normL13 y.kids = normL13 ks := by
+    have h1 := (dataEq_iff_norm y (.inner st f ms ks)).mp hdq
+    rw [normN_inner_form hyt] at h1
+    simp only [normN, DNode.inner.injEq] at h1
+    exact h1.2.2.2
+  have hexks : exactK S P (some .delete) y.kids true ks = true := exactK_plain_delete K hgks hpl hn
+  -- the induction hypothesis: the children of the deleted subtree into the children of the target node
+  obtain ⟨k, rfl⟩ : ∃ k, n = k + 1 := ⟨n - 1, by have := height_pos13 (DNode.inner st f ms ks); omega⟩
+  have hks : heightL ks ≤ k := height_inner_le hh
+  have hdk : dk S true ks = noKeys S ks := by simp [dk]
+  have hmemT : ∀ c ∈ noKeys S kt, explNone c ∈ (noKeys S kt).map explNone := fun c hc => List.mem_map_of_mem hc
+  obtain ⟨Mk, Ek', Yk', hmk, _, _, _, hTk', _⟩ := IH k true (some .delete) (some .delete) true (keysOf S kt)
+    ((noKeys S kt).map explNone) x.kids y.kids Ek (Or.inr rfl) hks hgxk hgyk hkYk
+    (by
+      intro kk hkk
+      refine ⟨keysOf_all_key S kt kk hkk, ?_⟩
+      intro c hc
+      rw [hdk] at hc
+      have := List.all_eq_true.mp (List.all_eq_true.mp hkord kk hkk) c hc
+      simpa using this)
+    hTk hRk
+    (by
+      intro c hc tk htk hmc
+      rw [hdk] at hc
+      obtain ⟨c0, hc0, rfl⟩ := List.mem_map.mp htk
+      obtain ⟨h1, h2, h3⟩ := hkfacts c0 hc0
+      have hcd : Dom S P c := (exactE_base (exactK_mem true ks hexks c (by rw [hdk]; exact hc)).1).1
+      have hlk : look S x.kids (explNone c0) = look S x.kids c0 := look_congr_fun (matchP_explNone S c0)
+      obtain ⟨opx, hopx⟩ := ownOp_explNone (exactE_base h1).2.1
+      refine ⟨⟨by rw [hlk]; exact hgexact c0 hc0, ?_, ?_⟩, ?_⟩
+      · unfold explNone
+        cases ho : ownOp c0 with
+        | some op => simp only [reduceCtorEq, ↓reduceIte]; exact h2
+        | none =>
+          simp only [↓reduceIte]
+          obtain ⟨hct, hmeta⟩ := h3 ho
+          cases c0 with
+          | term => simp [DNode.isTerm] at hct
+          | inner sc fc mc kc =>
+            simp only [DNode.metas] at hmeta
+            subst hmeta
+            have hco : changeOp (DNode.inner sc fc [] kc) .none = .inner sc fc [("operation", bs "none")] kc := by
+              simp [changeOp, eraseMeta, DNode.setMetas, DNode.metas, Op.str]
+            rw [hco]
+            simp only [litN, Bool.and_eq_true] at h2 ⊢
+            exact ⟨by simp [litInner], h2.2⟩
+      · intro op hop _
+        rw [effOp_own' hopx] at hop
+        rw [hopx, Option.some.inj hop]
+      · rw [safeP_congr (t := c0) (cur1 := some .none) (isTerm_explNone c0) ?_ ?_ (kids_explNone c0)]
+        · exact safeK_mem hsafeK c ((noKeys_sublist S ks).subset hc) c0 hc0
+            (by rw [← matchP_explNone_right hcd.ndi c0]; exact hmc)
+        · unfold explNone
+          cases ho : ownOp c0 with
+          | some op => simp only [reduceCtorEq, ↓reduceIte, effOp, ho]
+          | none =>
+            simp only [↓reduceIte]
+            rw [effOp_changeOp (exactE_base h1).2.1]
+            simp [effOp, ho]
+        · intro hct
+          unfold explNone
+          cases ho : ownOp c0 with
+          | some op =>
+            simp only [reduceCtorEq, ↓reduceIte]
+            have hne : op ≠ .replace := by
+              rintro rfl
+              have hop : effOp c0 (some .none) = some .replace := by simp [effOp, ho]
+              have := (exactE_replace h1 hop).1
+              rw [hct] at this; cases this
+            rw [childInh_of_own c0 op _ ho hne, childInh_of_own c0 op _ ho hne]
+          | none =>
+            simp only [↓reduceIte]
+            rw [childInh_of_own _ .none _ (ownOp_changeOp (exactE_base h1).2.1 .none) (by decide)]
+            simp [childInhOf, ho])
+    hexks (litL_of_plain ks hpl)
+  -- every child without an operation of its own is found among the children of the deleted subtree
+  have hfound : ∀ c ∈ noKeys S kt, ownOp c = none → (findForApply S ks c).isSome = true := by
+    intro c hc ho
+    obtain ⟨h1, _, h3⟩ := hkfacts c hc
+    obtain ⟨hct, hmeta⟩ := h3 ho
+    have htkm := hmemT c hc
+    have hex2 := hgexact c hc
+    have hlk : ∀ Z, look S Z (explNone c) = look S Z c := fun Z => look_congr_fun (matchP_explNone S c)
+    cases c with
+    | term => simp [DNode.isTerm] at hct
+    | inner sc fc mc kc =>
+      simp only [DNode.metas] at hmeta
+      subst hmeta
+      have hco : explNone (DNode.inner sc fc [] kc) = .inner sc fc [("operation", bs "none")] kc := by
+        simp [explNone, ho, changeOp, eraseMeta, DNode.setMetas, DNode.metas, Op.str]
+      rw [hco] at hex2 htkm hlk
+      have hop2 : effOp (DNode.inner sc fc [("operation", bs "none")] kc) (some .delete) = some .none :=
+        effOp_own' (ownOp_of_metas _ .none rfl) _
+      obtain ⟨hd2, _, hk2⟩ := exactE_base hex2
+      obtain ⟨xc, hxc, hnec, hexkc⟩ := exactE_none_inner hex2 hop2
+      obtain ⟨hgxc, _⟩ := good_look hgxk xc hxc
+      obtain ⟨Vc, hVc⟩ := listFwd (fx := fx) K kc _ xc.kids true (goodN_kidsT hgxc) hexkc
+      have hacts2 := acts_none_inner (fx := fx) (y := normN xc) K hd2 hk2 hop2 hnec (by simpa [dk] using hVc)
+      have hEk := Acts.det (hTk.acts _ htkm) (by rw [hlk, hxc]; exact hacts2) hgxk (hTk.kb _ htkm) rfl
+      have h5 := hRk.on _ htkm
+      rw [hEk, hlk, look_norm_congr hn] at h5
+      cases hf : findForApply S ks (DNode.inner sc fc [] kc) with
+      | some i => rfl
+      | none =>
+        have := look_none_iff_findIdx.mpr hf
+        rw [this] at h5
+        cases h5
+  -- the cell `delete` on `none`
+  have hsame : sameInst S (.inner st ft mt kt) (.inner st f ms ks) = true := sameInst_of_matchP_inner hsd rfl hm
+  have hndi : S.isDupInst st = false := htd.ndi
+  have hnuo : S.isUserOrd st = false := htd.nuo
+  let mt' : List Meta := eraseMeta "operation" mt ++ [("operation", bs Op.delete.str)]
+  have hco : changeOp (.inner st ft mt kt) .delete = .inner st ft mt' kt := rfl
+  let t1 : DNode := .inner st ft mt' (keysOf S kt ++ (noKeys S kt).map explNone)
+  have hcell : mergeCell S o .delete (.inner st ft mt kt) .none (.inner st f ms ks) = .ok (t1, false) := by
+    show (mergeDelete S _ .none _).map (·, false) = _
+    rw [mergeDelete_none_inner S st ft mt kt _ hsame hndi]
+    simp only [Except.map, t1, mt']
+    congr 4
+    apply List.map_congr_left
+    intro c hc
+    cases ho : ownOp c with
+    | some op =>
+      have hg : (getMeta c "operation").isSome = true := by
+        cases hgm : getMeta c "operation" with
+        | none => simp [ownOp, hgm] at ho
+        | some b => rfl
+      simp [hg, explNone, ho]
+    | none =>
+      have hmeta := ((hkfacts c hc).2.2 ho).2
+      have hg : getMeta c "operation" = none := by simp [getMeta, hmeta]
+      have hf : (findForApply S (DNode.inner st f ms ks).kids c).isSome = true := hfound c hc ho
+      simp [hg, hf, explNone, ho]
+  have hown1 : ownOp t1 = some .delete := by
+    have h0 := ownOp_changeOp htm .delete
+    rw [hco] at h0
+    exact (ownOp_congr_metas (d := .inner st ft mt' kt) (d' := t1) rfl).trans h0
+  have hkids : (fun (c' s' : Option Op) (tk : List DNode) =>
+      if (DNode.inner st f ms ks).isTerm then Except.ok tk else mergeKids S o c' s' true (DNode.inner st f ms ks).kids tk)
+      (childInhOf t1 cur) (childInhOf (.inner st f ms ks) sin) t1.kids = .ok (keysOf S kt ++ Mk) := by
+    simp only [DNode.isTerm, Bool.false_eq_true, ↓reduceIte, pj_kids_inner, hsin',
+      childInh_of_own t1 .delete cur hown1 (by decide)]
+    exact hmk
+  -- the source node on `Y`: the instance is deleted
+  obtain ⟨Y', hY', hgY', hkY', hloc, hval⟩ := acts_delete (fx := fx) (y := normN y) K hsd hsk hsop (k + 1) hp Y hh hgY hkb
+    (by rw [hy]; rfl)
+  -- the merge step: the target node is kept, with the operation `delete`
+  have hMk : ∀ m ∈ Mk, S.isKey m.sid = false := hTk'.lvl.nokey
+  obtain ⟨hko2, _⟩ := split_keys (S := S) (keysOf_all_key S kt) hMk
+  let t' : DNode := .inner st ft mt' (keysOf S kt ++ Mk)
+  have hsetk : t1.setKids (keysOf S kt ++ Mk) = t' := rfl
+  have hown' : ownOp t' = some .delete := (ownOp_congr_metas (d := t1) (d' := t') rfl).trans hown1
+  have hredf : isRedundant S cur t' = (t', false) :=
+    redundant_false_of_op S cur t' .delete (effOp_own' hown' cur) (by decide) hnuo
+  have hpre' : ∀ a ∈ kp ++ pre, matchP S (.inner st f ms ks) a = false := by
+    intro a ha
+    rcases List.mem_append.mp ha with ha | ha
+    · exact matchP_key_lt (hkp a ha).2
+    · exact hpre a ha
+  have hassoc : kp ++ (pre ++ DNode.inner st ft mt kt :: rest) = (kp ++ pre) ++ DNode.inner st ft mt kt :: rest := by simp
+  have hstep := mergeStep_keep S o cur sin (.inner st f ms ks) (.inner st ft mt kt) t1 (kp ++ pre) rest
+    (keysOf S kt ++ Mk) .delete .none
+    (fun c' s' tk => if (DNode.inner st f ms ks).isTerm then Except.ok tk
+      else mergeKids S o c' s' true (DNode.inner st f ms ks).kids tk)
+    hsop hcop hpre' hm hndi hndi hcell hkids (by rw [hsetk, hredf])
+  rw [← mergeR_eq, ← hassoc, hsetk, hredf] at hstep
+  have hmd : Dom S P t' := by
+    refine ⟨hnuo, hndi, by have := htd.typed; simpa [t', DNode.isTerm, DNode.sid] using this, ?_⟩
+    rw [K.pinv.pcongr (x := t') (y := .inner st ft mt kt) rfl rfl (by simp only [t', DNode.kids, hko2])]
+    exact htd.sat
+  have hmm : ∀ z, matchP S t' z = matchP S (.inner st ft mt kt) z := fun z =>
+    matchP_of_same_keys (d := .inner st ft mt kt) (d' := t') hndi rfl rfl (by simp only [t', DNode.kids, hko2]) z
+  have hactm : Acts S P fx cur t' ((look S L (.inner st ft mt kt)).map normN) none := by
+    rw [hx]; exact acts_delete (y := normN x) K hmd htk (effOp_own' hown' cur)
+  obtain ⟨hT2, hR2⟩ := tinv_set K hT1 hR1 hmd htk hmm rfl hactm hsd hm hloc hval hgY'
+  have hperm2 : (t' :: (pre ++ rest)).Perm (pre ++ t' :: rest) := List.perm_middle.symm
+  refine ⟨pre ++ t' :: rest, _, Y', by rw [hstep]; simp, hY', hgY', hkY', hloc, hT2.perm hperm2, hR2.perm hperm2, ?_⟩
+  intro z hz
+  rcases List.mem_append.mp hz with h | h
+  · exact Or.inl (by simp [h])
+  · rcases List.mem_cons.mp h with rfl | h
+    · exact Or.inr (matchP_src_of_left K hsd htd hmd hmm hm)
+    · exact Or.inl (by simp [h])
+
 /-! ### the induction over the source diff -/
 
 theorem listMerge_nil (S : Schema) (o : MergeOpts) : ListMergeSpec S P fx o [] := by
